@@ -410,9 +410,13 @@ fn stage_fault(i: &Input, c: &mut Case) -> Result<(), String> {
 }
 
 fn stage_limit(i: &Input, c: &mut Case) -> Result<(), String> {
-    // exact threshold of the size limit on master headers (no payload is allocated for masters)
+    // exact threshold of the size limit on master headers (no payload is allocated for masters), at root, inside a known-size parent
+    // that the element overruns, and inside an unknown-size parent, under every subset of tolerated classes: no tolerance switch
+    // relaxes the limit (older replay files carry three arguments: root, strict)
     let a = i.args();
     let (m_idx, delta, wsel) = (a[0], a[1], a[2]);
+    let tol = a.get(3).copied().unwrap_or(0) as u8;
+    let place = a.get(4).copied().unwrap_or(0);
     crate::dynspec::set_current(crate::gen::rich());
     let limits: [Option<usize>; 6] = [None, Some(0), Some(5), Some(127), Some(4096), Some(1 << 30)];
     let lim = limits[m_idx as usize];
@@ -425,18 +429,56 @@ fn stage_limit(i: &Input, c: &mut Case) -> Result<(), String> {
         _ => m + 2,
     };
     let w = (size_min_width(decl) + wsel as usize).min(8);
-    let mut bytes = id_bytes(0x18538067);
-    bytes.extend_from_slice(&ref_vint(decl, w).unwrap());
-    let cfg = ReadCfg { max_size: match lim { None => MaxSize::Untouched, Some(x) => MaxSize::Set(Some(x)) }, ..ReadCfg::default() };
+    const BODY: u64 = 0x18538067;
+    const GROUP: u64 = 0x1f43b675;
+    let (bytes, id, at) = if place == 0 {
+        let mut b = id_bytes(BODY);
+        b.extend_from_slice(&ref_vint(decl, w).unwrap());
+        (b, BODY, 0usize)
+    } else {
+        let mut g = id_bytes(GROUP);
+        g.extend_from_slice(&ref_vint(decl, w).unwrap());
+        let mut b = id_bytes(BODY);
+        if place == 1 {
+            b.extend_from_slice(&ref_vint(g.len() as u64, 1).unwrap());
+        } else {
+            b.push(0xFF);
+        }
+        let at = b.len();
+        b.extend_from_slice(&g);
+        (b, GROUP, at)
+    };
+    let cfg = ReadCfg { tolerate: tol, max_size: match lim { None => MaxSize::Untouched, Some(x) => MaxSize::Set(Some(x)) }, ..ReadCfg::default() };
     let obs = read_all::<crate::dynspec::RichSpec>(&bytes, &cfg);
     c.checks += 1;
     c.nontrivial = true;
-    c.sample_with(|| format!("Body header declaring {} bytes in a {}-byte size field, limit {:?}: {}", decl, w, lim, render_obs(&obs)));
+    c.label(match place { 0 => "limit_at_root", 1 => "limit_inside_known_size_parent", _ => "limit_inside_unknown_size_parent" });
+    c.label_if(tol != 0, "limit_with_tolerated_classes");
+    c.sample_with(|| format!("{} header declaring {} bytes in a {}-byte size field, limit {:?}, tolerated {:03b}: {}", if place == 0 { "Body" } else if place == 1 { "Group inside a known-size Body" } else { "Group inside an unknown-size Body" }, decl, w, lim, tol, render_obs(&obs)));
     let want_fail = decl > m;
-    match (want_fail, first_err(&obs)) {
-        (true, Some(Obs::Err(ErrK::InvalidTagSize { position: 0, tag_id: 0x18538067, size }))) if *size as u64 == decl => Ok(()),
-        (false, None) if items_of(&obs) == vec![Flat::Start(0x18538067), Flat::End(0x18538067)] => Ok(()),
-        _ => Err(format!("limit {:?}, declared {}: expected {}, observed {}", lim, decl, if want_fail { "InvalidTagSize" } else { "Start, End" }, render_obs(&obs))),
+    // inside the known-size parent every declared size > 0 also overruns it: unless that class is tolerated either rejection is right
+    let overrun_strict = place == 1 && decl > 0 && tol & TOL_OVER == 0;
+    let fe = first_err(&obs);
+    // a known-size parent whose own declared size is above the limit is what gets rejected
+    if place == 1 && (bytes.len() - at) as u64 > m {
+        return match fe {
+            Some(Obs::Err(ErrK::InvalidTagSize { position: 0, tag_id: BODY, size })) if *size == bytes.len() - at => Ok(()),
+            _ => Err(format!("limit {:?}, tolerated {:03b}: the parent declares {} bytes, expected InvalidTagSize for it, observed {}\n  bytes: {}", lim, tol, bytes.len() - at, render_obs(&obs), hex(&bytes))),
+        };
+    }
+    let ok = match (want_fail, fe) {
+        (true, Some(Obs::Err(ErrK::InvalidTagSize { position, tag_id, size }))) => *position == at && *tag_id == id && *size as u64 == decl,
+        (_, Some(Obs::Err(ErrK::OversizedChild { position, tag_id, .. }))) => overrun_strict && *position == at && *tag_id == id,
+        (false, None) => {
+            let it = items_of(&obs);
+            !overrun_strict && if place == 0 { it == vec![Flat::Start(BODY), Flat::End(BODY)] } else { it.len() == 4 && it[0] == Flat::Start(BODY) && it[1] == Flat::Start(GROUP) }
+        }
+        _ => false,
+    };
+    if ok {
+        Ok(())
+    } else {
+        Err(format!("limit {:?}, tolerated {:03b}, declared {}: expected {}, observed {}\n  bytes: {}", lim, tol, decl, if want_fail { "InvalidTagSize at the element" } else if overrun_strict { "OversizedChildElement at the element" } else { "the element's Start" }, render_obs(&obs), hex(&bytes)))
     }
 }
 
@@ -494,7 +536,9 @@ pub const STAGES: &[Stage] = &[
 ];
 
 pub fn run(rc: &mut RunCtx) {
-    rc.run_indexed(STAGES[1], 6 * 5 * 3, true, &|k| Input::Args(vec![k / 15, (k / 3) % 5, k % 3]));
+    // first, and on master headers only: whatever is wrong with the limit shows here before any stage in which a limit that is not
+    // enforced makes the iterator allocate what a header declares
+    rc.run_indexed(STAGES[1], 6 * 5 * 3 * 8 * 3, true, &|k| Input::Args(vec![(k / 15) % 6, (k / 3) % 5, k % 3, (k / 90) % 8, k / 720]));
     rc.run_pt(STAGES[0], rc.pick(160_000, 800_000), (96, 500));
     rc.run_pt(STAGES[2], rc.pick(160_000, 800_000), (96, 500));
     rc.require_label("single_fault", "overrun_through_unknown_size_master", 5_000);
